@@ -1,7 +1,7 @@
 CFG = {
         "gen": ["MuxConst", "NoiseConst", "StoreConst", "StoreFns"],
         "props": ["EraVerif.Props.C10", "EraVerif.Props.C08gen"],
-        "required_theorems": ["gen_contains_total", 
+        "required_theorems": ["gen_contains_total", "handshake_read_in_bounds", 
             "mux_dispatch_total", "mux_dispatch_refines_spec", "mux_dispatch_err_iff", "mux_dispatch_legacy_panics",
             "read_exact_arm_total", "mux_data_split_bounded", "mux_inbound_never_panics_and_bounded", "parked_frames_hold_permits", "control_frames_hold_permits",
             "mux_inbound_terminates", "spawn_ids_in_range", "mux_handshake_read_total",
